@@ -1,5 +1,5 @@
 """C08 -- proprietary PGN definitions are selected exactly by their match fields."""
-from .. import rules_gen as R
+from .. import rules_gen as R, rules_enc as E
 
 LEVEL = 'translation_validation'
 EXPLANATION = (
@@ -21,6 +21,7 @@ def run(chk, program, tier):
     chk.rule('GEN-DEC', 'leaf decoder reports the PGN/id of its definition')
     nd, na, nc = R.disp(chk, program)
     R.disp_reach(chk, program)
+    E.enc_name(chk, program)
     R.gen_dec(chk, program, slots=[], rule='GEN-DEC', with_msg=True, with_flow=False)
     chk.unit('programs', nd)
     chk.floor('dispatchers', nd, 24)
